@@ -54,6 +54,22 @@ theorem Step.newTopicId' {g g' : Gw} {r : Option UInt16} (h : g.newTopicId = (r,
   subst this
   exact Step.newTopicId g
 
+@[simp] theorem registrationTopicId_buffer (g : Gw) (topic : Bytes) : (g.registrationTopicId topic).2.buffer = g.buffer := by
+  rcases registrationTopicId_proj g topic with h | h | ⟨id, h⟩ <;> rw [h]
+  · exact newTopicId_buffer g
+  · exact newTopicId_buffer g
+
+@[simp] theorem registrationTopicId_txs (g : Gw) (topic : Bytes) : (g.registrationTopicId topic).2.txs = g.txs := by
+  rcases registrationTopicId_proj g topic with h | h | ⟨id, h⟩ <;> rw [h]
+  · exact newTopicId_txs g
+  · exact newTopicId_txs g
+
+theorem Step.registrationTopicId' {g g' : Gw} {topic : Bytes} {r : Option UInt16} (h : g.registrationTopicId topic = (r, g')) :
+    Step Sn Mq E g g' := by
+  have : g' = (g.registrationTopicId topic).2 := by rw [h]
+  subst this
+  exact Step.of_eq (registrationTopicId_outs g topic) (registrationTopicId_buffer g topic) (registrationTopicId_txs g topic)
+
 /-! ### client → broker -/
 
 theorem mqQos_le {q : UInt8} (h : q ≤ 3) : mqQos q ≤ 2 := by
@@ -278,9 +294,9 @@ theorem Step.handleBrokerPublish (S : Sites Sn Mq) (g : Gw) (dup : Bool) (qos : 
           · rename_i hq
             split
             · rename_i g' h
-              exact Step.trans (Step.newTopicId' h) (Step.fail _ _)
+              exact Step.trans (Step.registrationTopicId' h) (Step.fail _ _)
             · rename_i newId g' h
-              refine Step.trans (Step.newTopicId' h) ?_
+              refine Step.trans (Step.registrationTopicId' h) ?_
               refine Step.startBrokerPub g' _ _ _ _ _ _ (fun p e => ?_) (S.register _ _ _ hne' hlen'.2)
               cases e
               exact S.publish _ _ _ _ _ _ _ (UInt8.not_lt.mp hq) (by decide) hlen'.1
